@@ -65,7 +65,13 @@ long c12_transition_min() {
 bool class_in_scope(const std::string &prop, const std::string &cls, int mode, bool external, bool after_explicit_offset,
                     int expect_fail, bool via_file, bool fault_context) {
   // whatever the call was meant to deliver, it did not
-  if (cls == "crash" || cls == "hang" || cls == "sanitizer" || cls == "outside_write" || cls == "code_ptr") return true;
+  if (cls == "crash" || cls == "hang" || cls == "sanitizer" || cls == "code_ptr") return true;
+  if (cls == "outside_write") {
+    // a byte outside the attached/managed buffer was (or would have been) written
+    if (prop == "C07") return external;
+    if (prop == "C08") return !external;
+    return prop == "C17" ? fault_context : prop == "C18";
+  }
   if (cls == "oracle_unstable") return prop == "C06" || prop == "C15";
   const bool model_cls = cls == "ret" || cls == "offset" || cls == "bytes" || cls == "fit" || cls == "count";
   if (prop == "C06") return model_cls && mode == M_PLAIN && !via_file;
@@ -175,8 +181,13 @@ static bool crashed(Run &R, int ti, int oi, const Op *op, OpCtx &c, int j, const
     rel = extbuf_ptr(I->ext);
     rl = extbuf_len(I->ext);
   }
-  if (j == J_FAULT)
-    violate(R, ti, oi, op, "crash", fault_text(R, c, rel, rl));
+  if (j == J_FAULT) {
+    // a write that faults inside the simulated address space is a write outside every buffer the
+    // library owns or was given (guard page, gap, released mapping): the property that speaks about
+    // that is C07 (caller buffers) / C08 (library-managed buffer).  Everything else is a plain crash.
+    bool wild_write = (c.fault_sig == SIGSEGV || c.fault_sig == SIGBUS) && c.fault_write && addr_in_arena(c.fault_addr);
+    violate(R, ti, oi, op, wild_write ? "outside_write" : "crash", fault_text(R, c, rel, rl), M_PLAIN, I ? I->m.external : true);
+  }
   else if (j == J_HANG)
     violate(R, ti, oi, op, "hang", "step budget exceeded (" + std::to_string(R.p->world.step_budget) + " edges)");
   else
